@@ -42,6 +42,29 @@ func probePlan(name string) *Plan {
 		ph2 := &Phase{EndAmple: [2]bool{true, true}}
 		ph2.Ops[1] = []*Op{{K: OpHeaders, S: 1, Fields: []Field{{N: "grpc-status", V: "0"}, {N: "x-b", V: "w"}}, Pad: -1, End: true, WaitHdr: true}}
 		p.Phases = append(p.Phases, ph2)
+	case "max-frame-size-lowered-with-queued-data":
+		// C09 probe: the server raises MAX_FRAME_SIZE, the client sends 30 000-byte DATA frames, the
+		// third one stays queued in the relay behind the server's stream window; the server lowers
+		// MAX_FRAME_SIZE (PING barrier), then opens the window
+		p.WinClass[1] = "default"
+		p.Init[1] = Init{Settings: []http2.Setting{{ID: http2.SettingMaxFrameSize, Val: 32768}}}
+		p.BigFrames[0] = true
+		ph.EndAmple[1] = false
+		ph.Ops[0] = []*Op{{K: OpHeaders, S: 1, Fields: req, Pad: -1},
+			{K: OpData, S: 1, N: 30000, Pad: -1}, {K: OpData, S: 1, N: 30000, Pad: -1}, {K: OpData, S: 1, N: 30000, Pad: -1, End: true}}
+		ph.After = []Change{{E: 1, ID: http2.SettingMaxFrameSize, Val: 16384, Lower: true, NoDrain: true, WaitRecv: 60000}}
+		p.Phases = append(p.Phases, &Phase{EndAmple: [2]bool{true, true}})
+	case "priority-behind-negative-window":
+		// C08 regression: the server lowers INITIAL_WINDOW_SIZE below what stream 1 already carried
+		// (negative window), the stream is closed in both directions, then the client sends PRIORITY
+		p.WinClass[1] = "default"
+		p.Init[1] = Init{}
+		ph.Ops[0] = []*Op{{K: OpHeaders, S: 1, Fields: req, Pad: -1}, {K: OpData, S: 1, N: 100, Pad: -1, End: true}}
+		ph.Ops[1] = []*Op{{K: OpHeaders, S: 1, Fields: resp, Pad: -1, End: true, WaitHdr: true}}
+		ph.After = []Change{{E: 1, ID: http2.SettingInitialWindowSize, Val: 50, Lower: true}}
+		ph2 := &Phase{EndAmple: [2]bool{true, true}}
+		ph2.Ops[0] = []*Op{{K: OpPriority, S: 1, Prio: &http2.PriorityParam{Weight: 9}}}
+		p.Phases = append(p.Phases, ph2)
 	case "control":
 		// the same three sessions without the unreadable feature: must pass
 		ph.Ops[0] = []*Op{{K: OpHeaders, S: 1, Fields: req, Pad: -1, End: true, NCont: 1, CutSeed: 5}}
